@@ -1,5 +1,5 @@
 HOOK_COMMITS = ["a00b145"]
-FIX_COMMITS = ["4cfe379", "D6", "4be56b0", "7cf11ff", "908d75c", "71fe224"]
+FIX_COMMITS = ["4cfe379", "9a3809a", "4be56b0", "7cf11ff", "908d75c", "71fe224"]
 PENDING = "check not built yet in this round (see DESIGN.md section 10 build order); listed here until its check is registered"
 CHECKS = {
  "C06": dict(engine="K+L", technique="bounded model checking of the compiled crate (Kani/CBMC, bit-precise, symbolic limbs) + SMT on release LLVM IR",
